@@ -469,6 +469,7 @@ def key_of(poolkey):
 
 class C17(Prop):
     id = "C17"
+    case_watchdog = None          # this property manages time itself (per-string alarms / schedule exploration)
     model = "lru"
     rule = ("sequential: all op sequences (get/set/del/clear/len/keys, keys canonically numbered in order of first "
             "use, fresh value per set) of length 6 (quick) / 7 (thorough) over 4 keys x maxsize 0..3, plus all "
